@@ -146,9 +146,11 @@ META = {
             "apply/eval/force/map/for-each are not represented values of the main theorem: Laws3.vr_no_redisp). ASSUMED Laws3 = "
             "heap laws of stage 2 with Ext3 (= Ext2 + heap pairs and initialised slots kept) + internal slots Undefined after ENTER + "
             "heap.put returns a pointer observing the same value / a fresh pair + `call` for FIRST-ORDER builtins. Laws3 is PROVED "
-            "for the toy heap of CompileCorrect3Toy.lean (laws3_toy: put allocates, CLOSURE/ENTER as run.rs, no builtin so call is "
+            "for the toy heap of CompileCorrect3Toy.lean (laws3_toy: put allocates, CLOSURE/ENTER as run.rs, the only builtin is apply so call is "
             "vacuous); every hypothesis of the main theorem discharged there for ((lambda (a . r) r) 1 2 3) (demo_stage3_rest_runs: "
-            "acc shows (2 3)) and ((lambda (x) (define y (if x 1 2)) y) #t) (demo_stage3_define_runs). NOT proved on the concrete heap "
+            "acc shows (2 3)) and ((lambda (x) (define y (if x 1 2)) y) #t) (demo_stage3_define_runs); ListLaws proved there (listLaws3_toy) and every "
+            "hypothesis of the apply theorem discharged for the whole compiled (apply (lambda (a b) b) 1 '(2)) (demo_stage3_apply_runs: "
+            "operands by the main theorem, load of the global apply, re-dispatch, ENTER, body, RET; acc shows 2). NOT proved on the concrete heap "
             "model (open: put laws, Ext3.pairs/init for the free-list allocator). Of the error cases of stage 3 only the arity error of a variadic "
             "call is proved (closure_call_stage3_rest_arity_error_partial: fewer arguments than fixed parameters — Spec.Eval arity, the "
             "machine's VARARG fails InvalidNumArgs at once); errors inside initialisers / bodies: open. Open: quasiquote, call/cc escapes, eval/map/for-each, recursion through internal "
@@ -273,6 +275,8 @@ THEOREMS = [
     "Marwood.Proofs.C01.internal_define_read_before_init_differs",
     "Marwood.Proofs.C01.lambda_initialiser_rule_unsound",
     "Marwood.Proofs.C01.closure_call_stage3_rest_arity_error_partial",
+    "Marwood.Proofs.C01.listLaws3_toy",
+    "Marwood.Proofs.C01.demo_stage3_apply_runs",
     "Marwood.Lemmas.CompileCorrect3.compileExpr_correct3",
     "Marwood.Lemmas.CompileCorrect3.enter_closure3",
     "Marwood.Lemmas.CompileCorrect3.varArg_ok",
